@@ -1,5 +1,5 @@
 /-
-C09 — `cross_protocol` (376 chords both protocols express × kitty codes × field combinations; table kernel-evaluated
+C09 — `cross_protocol` (384 chords both protocols express × kitty codes × field combinations; table kernel-evaluated
 for Go's ASCII tables) lifted to EVERY `unicode` oracle that agrees with Go on ASCII and on the key codes above the
 Unicode range (`AgreeOnKeys`) and satisfies the table law `UpperHasLower`: the decoder consults the oracle only at the
 runes of the report (`Lemmas/KeyCongr.lean`), those are ASCII runes or key codes for every chord of the domain
